@@ -129,6 +129,7 @@ impl Lintable for FunctionBody
 		{
 			statement.lint(linter);
 		}
+		self.return_value.lint(linter);
 	}
 }
 
